@@ -67,6 +67,29 @@ add("C10", "model_checking", E2 + " over matcher histories (state = selector obj
     "giving the selector, reading with the selector equals reading without and filtering afterwards, including where an exception occurs.",
     "Canonical matcher state = names bound in the matcher namespace; adapters restricted to fields they can carry.", "DESIGN.md C10")
 
+add("C14", "exploration", E1 + " (JSON types x values x descriptors x indent x 5 channels; documents parsed by Python's json, values by an independent mapping)",
+    "For every JSON-supported type (scalar and list) and value of the alphabets, pairs, and sequences over descriptors that share keys but "
+    "change value kinds: the output is a sequence of standalone JSON documents with exactly the record's keys, every value equals the "
+    "independently computed plain JSON value (base64, ISO timestamps, digest object), records read back obs-identical with descriptors on, "
+    "and as the same scalar JSON values with descriptors off.",
+    "Python's json module defines 'plain JSON'; indented output is checked as documents only (the reader is line based).", "DESIGN.md C14")
+add("C18", "model_checking", E2 + " (all event histories to depth 5/6 x 4 batch sizes on the real SqliteWriter, independent observer connection after every event, liberal commit model)",
+    "Every history over {write A, write B, write A+, write A-, flush, close} up to depth 5 (6 thorough) x batch sizes {1,2,3,1000}: after every "
+    "event a second sqlite3 connection sees a prefix of the write order whose length is a legitimate commit point, cell for cell; after close "
+    "everything is there; the final content is identical for all batch sizes; values and names alphabets round-trip through SqliteReader.",
+    "Liberal commit model (DESIGN C18); SQLite stores NaN as NULL and -0.0 as 0.0 (judged by value).", "DESIGN.md C18")
+add("C19", "exploration", E1 + " (mapped types x values, unmapped types, write histories with refused records; file read by fastavro directly and by AvroReader)",
+    "Every Avro-mapped type x value alphabet, pairs, sequences, every unmapped type, out-of-range values and all write histories <=3 over "
+    "{valid, refused value, other type}: accepted records are in the container as written (binary32 floats, UTC instants), the schema "
+    "carries the descriptor, unmappable records are refused, and nothing in the file differs from an accepted record.",
+    "fastavro.reader opened directly is the standard reader; out-of-range values may be refused or stored exactly.", "DESIGN.md C19")
+add("C20", "exploration", E1 + " (all types x cell alphabet x option sets on the CSV, line and text writers; recovery by Python's csv module and a block parser)",
+    "Every whitelisted type and value, a cell alphabet of delimiters/quotes/line breaks/unicode/undecodable bytes, sequences that switch "
+    "descriptors, x field/exclude/line-terminator/verbose/format-spec options: no writer raises, csv.reader recovers header rows and cells "
+    "exactly, line blocks are numbered and hold one 'name = value' line per selected field, text output equals the record's representation "
+    "or the applied template; CSV files over 4 delimiters x header shapes read back with normalised names and the same text.",
+    "text form = str(value); non-default option sets are applied to cell/sequence cases and a quarter of the value cases.", "DESIGN.md C20")
+
 NOT_BUILT = "check not built yet in this round (design in DESIGN.md section 3); not claimed until it runs"
 
 
